@@ -463,7 +463,7 @@ def _run(case, mon):
     obs = {"rule_sets": 0, "rule_clears": 0, "clears_of_absent_rule": 0, "driver_commands": 0, "games_started": 0,
            "balls_started": 0, "balls_ended": 0, "tilts": 0, "service_entries": 0, "ball_searches": 0,
            "timeout_trips": 0, "sw_repulses": 0, "enable_requests": 0, "disable_requests": 0, "sw_flips": 0,
-           "off_instants": 0, "ball_started_with_stale_tilted_flag": 0, "ball_started_after_game_stop": 0, "off_with_prior_enable": 0, "iteration_checks": 0, "requests_on_same_instant": 0}
+           "off_instants": 0, "ball_started_with_stale_tilted_flag": 0, "ball_started_after_game_stop": 0, "game_started_in_service_mode": 0, "off_with_prior_enable": 0, "iteration_checks": 0, "requests_on_same_instant": 0}
     viol = []
     seen_sigs = set()
     shape = []
@@ -503,7 +503,8 @@ def _run(case, mon):
         for d in devs:
             for k in d["hwkeys"]:
                 key_owner[k] = d
-        st = {"dirty_t": vm.now(), "ball_live": False, "pending_check": False, "tilt_seen": False, "svc_exit": None}
+        st = {"dirty_t": vm.now(), "ball_live": False, "pending_check": False, "tilt_seen": False, "svc_exit": None,
+              "game_started_in_service": False}
 
         def touch():
             st["dirty_t"] = vm.now()
@@ -537,7 +538,12 @@ def _run(case, mon):
                     gm = m.modes["game"]
                     # the game was already told to stop (or service mode is on) when its ball_started is dispatched
                     late = bool(gm.stopping or not gm.active or m.service.is_in_service())
-                    if late:
+                    if late and st["game_started_in_service"]:
+                        # a different mechanism: the whole game was started while service mode was on
+                        late = "C10:game_started_in_service_mode"
+                        obs["game_started_in_service_mode"] += 1
+                    elif late:
+                        late = "C10:ball_started_after_game_stop"
                         obs["ball_started_after_game_stop"] += 1
                     st["ball_live"] = True
                     st["tilt_seen"] = False
@@ -558,7 +564,7 @@ def _run(case, mon):
                     elif ev in d["en_ev"]:
                         set_want_on(d)
                         if late:
-                            d["late_enable"] = True
+                            d["late_enable"] = late
             return spy
         for ev in sorted(spy_events):
             m.events.add_handler(ev, mk_spy(ev), priority=-100000)
@@ -681,17 +687,17 @@ def _run(case, mon):
                     left = [plat.rules[k] for k in d["hwkeys"] if k in plat.rules]
                     if en or left:
                         V("lifecycle_off",
-                          "C10:ball_started_after_game_stop" if d["late_enable"] else "C10:rule_remains_" + off,
+                          d["late_enable"] if d["late_enable"] else "C10:rule_remains_" + off,
                           where=where, t=now, device=d["name"], kind=d["kind"], enabled=en, rules=left, phase=off)
                     if d["kind"] == "flipper":
                         for c in d["coils"]:
                             clauses["coil_idle"] += 1
                             cmd = mon.drv.get(c)
                             if cmd and cmd[0] in ("enable",):
-                                if cmd[1] == "_repulse_on_eos_open":
+                                if d["late_enable"]:
+                                    sig = d["late_enable"]
+                                elif cmd[1] == "_repulse_on_eos_open":
                                     sig = "C10:sw_repulse_coil_left_enabled"
-                                elif d["late_enable"]:
-                                    sig = "C10:ball_started_after_game_stop"
                                 else:
                                     sig = "C10:flipper_coil_left_energised"
                                 V("coil_idle", sig, where=where, t=now, device=d["name"], coil=repr(c), phase=off,
@@ -898,6 +904,10 @@ def _run(case, mon):
                 queue.wait()
                 m.delay.add(ms=hold_ms, callback=queue.clear)
             m.events.add_handler("mode_game_stopping", hold_stop, priority=5)
+
+        def game_start_spy(**kwargs):
+            st["game_started_in_service"] = bool(m.service.is_in_service())
+        m.events.add_handler("game_start", game_start_spy, priority=100000)
 
         def bs_spy(**kwargs):
             obs["ball_searches"] += 1
